@@ -50,5 +50,5 @@ ASSUMPTIONS = ['tier H: hierarchies (a) serial->serial->root, (b) concurrent->se
                'histories are sequential; overlap is exercised through nested operations: while an item runs, client thread B submits synchronously to any level (if B must sleep its path ends there); worker choice: oldest pending hand-off',
                'workloops as hierarchy bottom are not covered: on this platform a serial queue targeting a dispatch_workloop crashes in _dispatch_lane_drain (DISPATCH_INVOKE_WORKLOOP_DRAIN dereferences a non-workloop wlh) - see DESIGN, known limitation of the build, not exercised',
                'depth <= 3, fan-in <= 2', 'LOCK-CHAIN oracle: whenever an item of a queue whose do_targetq is a serial queue of the hierarchy starts, the running thread holds that serial queue\'s drain lock (covers hierarchies built by dispatch_set_target_queue on an active queue)']
-LEVEL_TEXT = 'Tier H on real code: hierarchies serial->serial->root, concurrent->serial->root, two queues fanning in on one serial queue, the same built through dispatch_set_target_queue on an inactive queue + activate, with and without a client-chosen QoS attribute; every sequence of 2 (thorough 3) submissions addressed to any level, plus nested histories in which a second client submits synchronously to any level while an item of any level runs: at most one item of the hierarchy runs at a time, per-queue FIFO.'
+LEVEL_TEXT = 'Tier H on real code: hierarchies serial->serial->root, concurrent->serial->root, two queues fanning in on one serial queue, the same built through dispatch_set_target_queue on an inactive queue + activate, with and without a client-chosen QoS attribute; every sequence of 2 (thorough 3) submissions addressed to any level, plus nested histories in which a second client submits synchronously to any level while an item of any level runs: at most one item of the hierarchy runs at a time, per-queue FIFO. Also: every sequence of 3 operations containing dispatch_async_and_wait on any level (its item parked on a busy lower level is run by that level\'s drainer, which must keep its own lock), and dispatch_set_target_queue on an ACTIVE queue (one retarget in every sequence of <= 3 (4) operations, also issued from inside a running item) judged by the LOCK-CHAIN oracle: an item of a queue whose do_targetq is a serial queue of the hierarchy starts only on a thread that holds that queue\'s drain lock.'
 LEVEL_NOTE = "Depth <= 3, fan-in <= 2, sequential histories with nested client submissions; workloops as hierarchy bottom are not exercised (a serial queue targeting a workloop crashes on this platform's build); retargeting of an ACTIVE queue: histories with one dispatch_set_target_queue on the active top queue (three otherwise unrelated queues)."
